@@ -1,0 +1,55 @@
+//go:build verif
+
+package js
+
+// Verification hooks for property C12 (add-only, compiled with -tags verif only):
+// the generated lexer tables of this package as plain int slices, so that the decidable
+// well-formedness predicate of the Lean model (TablesWF) is evaluated on the real tables.
+
+// VerifMapRange mirrors the generated mapRange.
+type VerifMapRange struct {
+	Lo, Hi     int
+	DefaultVal int
+	Val        []int
+}
+
+// VerifLexTables holds the generated tables (absent ones are nil).
+type VerifLexTables struct {
+	NumClasses   int
+	RuneClass    []int
+	RuneClassLen int
+	FirstRule    int
+	Ranges       []VerifMapRange // tmRuneRanges (mapRune)
+	HasMapRune   bool
+	StateMap     []int // tmStateMap
+	Token        []int // tmToken
+	Action       []int // tmLexerAction
+	Backtracking []int // tmBacktracking (flat pairs)
+}
+
+// VerifTables returns the generated lexer tables.
+func VerifTables() VerifLexTables {
+	t := VerifLexTables{NumClasses: tmNumClasses, RuneClassLen: tmRuneClassLen, FirstRule: tmFirstRule}
+	for _, v := range tmRuneClass {
+		t.RuneClass = append(t.RuneClass, int(v))
+	}
+	for _, v := range tmLexerAction {
+		t.Action = append(t.Action, int(v))
+	}
+	t.StateMap = append(t.StateMap, tmStateMap...)
+	for _, v := range tmToken {
+		t.Token = append(t.Token, int(v))
+	}
+	t.HasMapRune = true
+	for _, r := range tmRuneRanges {
+		mr := VerifMapRange{Lo: int(r.lo), Hi: int(r.hi), DefaultVal: int(r.defaultVal)}
+		for _, v := range r.val {
+			mr.Val = append(mr.Val, int(v))
+		}
+		t.Ranges = append(t.Ranges, mr)
+	}
+	return t
+}
+
+// VerifMapRune exposes the generated mapRune.
+func VerifMapRune(c rune) int { return mapRune(c) }
